@@ -89,9 +89,9 @@ func VerifHarness_CastPrograms() {
 		herrors.VerifAssert("accepted", false)
 		return
 	}
-	herrors.VerifTag("__ignore_panic", "C02")
+	// a crash here means that a value reached an operation its static type rules out: the subject of this property
 	var o verifOutcome
-	p, _ := herrors.VerifPanics(func() {
+	p, pmsg := herrors.VerifPanics(func() {
 		if backend == 0 {
 			o = verifRunVM(an, nil, inputs, verifLimits, newVerifCtx())
 		} else {
@@ -99,7 +99,10 @@ func VerifHarness_CastPrograms() {
 		}
 	})
 	if p {
-		herrors.VerifReached("panicked-skipped")
+		herrors.VerifTag("panic", herrors.VerifNorm(pmsg))
+	}
+	herrors.VerifAssert("values-keep-their-static-types:no-crash", !p)
+	if p {
 		return
 	}
 	herrors.VerifReached("ran")
